@@ -9,6 +9,7 @@ import (
 	"sort"
 	"strings"
 	"sync"
+	"time"
 
 	"github.com/goplus/gogen"
 	"github.com/goplus/gogen/verifrt"
@@ -29,9 +30,10 @@ func init() {
 			"(B) interleavings: for every ordered pair of programs the two builds run as two threads under a cooperative scheduler whose scheduling points are the entry of every library function that refers to a package-level variable (inserted mechanically in the build overlay); depth-first exploration of all schedules with at most 1 (thorough: 2) preemptions; in every schedule both outputs (files, per-row verdicts) must equal the sequential outputs and the fingerprint must be unchanged; one recorded schedule per pair is replayed and must reproduce the same observations. " +
 			"(C) the same programs run free on 16 goroutines under the Go race detector, from a cold process (first use of every lazily initialised object is concurrent) and warm; any report is a violation. " +
 			"non-trivial = schedules with at least one preemption; distinct = pair x schedule",
-		Assumptions: []string{"interference between builds needs a package-level variable (or something reachable from one): stage A lists them from the source, stage B puts a scheduling point in front of every function that uses one", "go/types objects that belong to one importer are not shared between builds"},
-		Run:         run,
-		Replay:      replay,
+		Assumptions:    []string{"interference between builds needs a package-level variable (or something reachable from one): stage A lists them from the source, stage B puts a scheduling point in front of every function that uses one", "go/types objects that belong to one importer are not shared between builds"},
+		ThoroughBudget: 60 * time.Minute,
+		Run:            run,
+		Replay:         replay,
 	})
 }
 
